@@ -97,7 +97,7 @@ var rxNear = map[string][]string{
 	`[0-9]+`: {"1a", "a1", "x", ""}, `[a-z]+`: {"A", "1", "aB", ""}, `[A-Z][A-Z]`: {"A", "ABC", "ab"}, `\d{1,3}`: {"1234", "a", ""},
 	`(?:foo|bar)`: {"fo", "foobar", "baz"}, `.*`: {"é"}, `ab`: {"a", "xabx", "b"}, `[a-z]*`: {"A", "1"}, `^[0-9]+$`: {"4a", "a4"}, `[^x]+`: {"x", "xx", "axb"},
 }
-var valPool = []string{"x", "12", "ab", "foo", "AB", "é", "a.b", "x:get", "a", "b", "users", "x.foo", "q_x", "{v}", "a:b", "*", "x\ny"}
+var valPool = []string{"x", "12", "ab", "foo", "AB", "é", "a.b", "x:get", "a", "b", "users", "x.foo", "q_x", "{v}", "a:b", "*", "x\ny", "a%2Fb", "%41b"}
 
 type tplTok struct {
 	kind int // 0 lit 1 var 2 rx 3 suffix 4 tail
@@ -136,6 +136,9 @@ func (t tplTok) instance(r *Rng, good bool) string {
 		}
 	case 1:
 		s = r.Pick(valPool)
+		if r.Pct(25) {
+			s = r.Pick(litPool)
+		}
 	case 2:
 		if good {
 			s = r.Pick(rxGood[t.re])
@@ -276,12 +279,26 @@ func genTable(r *Rng, router int, maxWs int) (TableSpec, []genRoute) {
 		for i := 0; i < nr; i++ {
 			var toks []tplTok
 			var sibling *RouteSpec
+			crossed := false
 			if i > 0 && r.Pct(35) {
 				// a sibling of an earlier route: same shape with one token changed, or same path other method
 				prev := all[len(all)-1-r.Intn(min(i, len(all)))]
 				sibling = &prev.spec
 				toks = append([]tplTok{}, prev.toks[min(len(rootToks), len(prev.toks)):]...)
-				if len(toks) > 0 && r.Pct(70) {
+				if r.Pct(30) {
+					// crossed shapes: literal and plain-variable positions flipped at random, same method (below)
+					crossed = true
+					for k := range toks {
+						if toks[k].verb != "" || !r.Bool() {
+							continue
+						}
+						if toks[k].kind == 0 {
+							toks[k] = tplTok{kind: 1, name: r.Pick(varNames)}
+						} else if toks[k].kind == 1 {
+							toks[k] = tplTok{kind: 0, text: r.Pick(litPool)}
+						}
+					}
+				} else if len(toks) > 0 && r.Pct(70) {
 					k := r.Intn(len(toks))
 					nt := genTokens(r, router, 1, k == len(toks)-1, map[string]bool{})
 					if nt[0].kind != 4 {
@@ -297,6 +314,9 @@ func genTable(r *Rng, router int, maxWs int) (TableSpec, []genRoute) {
 			rel := renderPath(toks, r)
 			rs := RouteSpec{ID: id, Method: r.Pick(methodPool[:5+r.Intn(8)]), Rel: rel,
 				Consumes: genMimeList(r), Produces: genMimeList(r)}
+			if crossed {
+				rs.Method = sibling.Method
+			}
 			if sibling != nil && r.Pct(45) {
 				// contested negotiation: same method as the sibling, one acceptable by name and one by wildcard only
 				rs.Method = sibling.Method
@@ -374,9 +394,14 @@ func genRequest(r *Rng, routes []genRoute) *Req {
 			badTok = r.Intn(len(gr.toks))
 			mut--
 		}
+		partner := overlapPartner(r, routes, gr)
 		segs := []string{}
 		for i, t := range gr.toks {
-			segs = append(segs, t.instance(r, i != badTok))
+			if partner != nil && t.kind == 1 && partner.toks[i].kind == 0 && i != badTok {
+				segs = append(segs, partner.toks[i].text) // aimed at both routes
+			} else {
+				segs = append(segs, t.instance(r, i != badTok))
+			}
 		}
 		for ; mut > 0; mut-- {
 			switch r.Intn(4) {
@@ -497,7 +522,7 @@ func genRoute_(r *Rng) Sx {
 	}
 	t, routes := genTable(r, router, 4)
 	q := genRequest(r, routes)
-	return L(t.Sx(), q.Sx())
+	return L(t.Sx(), q.Sx(), B(r.Pct(15))) // third: trace logging on (to a discarding logger)
 }
 
 // ---------- building the real container ----------
@@ -715,12 +740,17 @@ func dispatchObs(c *restful.Container, pr *probe, q *Req) Sx {
 func runRoute(raw Sx) (Sx, Sx) {
 	t := tableFromSx(sxNth(raw, 0))
 	q := sxReq(sxNth(raw, 1))
+	trace := len(sxList(raw)) > 2 && sxBool(sxNth(raw, 2))
+	if trace {
+		restful.EnableTracing(true) // must not change any answer
+		defer restful.EnableTracing(false)
+	}
 	pr := &probe{}
 	c, kept, _ := buildContainer(t, pr)
 	obs := dispatchObs(c, pr, q)
 	o := NewOracles()
 	tabulateRouting(o, kept, q.Path)
-	return L(o.Sx(), kept.Sx(), q.Sx()), obs
+	return L(o.Sx(), kept.Sx(), q.Sx(), B(trace)), obs
 }
 
 func init() { domains["route"] = domain{gen: genRoute_, run: runRoute} }
